@@ -87,7 +87,7 @@ Fixpoint wavpack_walk (fuel : nat) (f : list Z) (pos block_size samples : Z) : Z
   | O => samples
   | S fuel' =>
     let pos' := pos + (block_size - 32 + 8) in
-    let header := zslice pos' (pos' + 32) f in
+    let header := zslice_c pos' (pos' + 32) f in
     if negb (zlen header =? 32) || negb (starts_with ascii_wvpk header) then samples
     else wavpack_walk fuel' f (pos' + 32) (le_at 4 4 header) (samples + le_at 20 4 header)
   end.
@@ -127,7 +127,7 @@ Definition build_ape (version seek_bytes wav_bytes audio_bytes compression forma
                       blocks_per_frame final_frame_blocks total_frames bits channels rate : Z) : list Z :=
   ascii_MAC_ ++ le_encode 2 version ++ le_encode 2 0 ++ le_encode 4 52 ++ le_encode 4 24 ++
   le_encode 4 seek_bytes ++ le_encode 4 wav_bytes ++ le_encode 4 audio_bytes ++ le_encode 4 0 ++ le_encode 4 0 ++
-  zeros 16 ++
+  repeat 0 16%nat ++
   le_encode 2 compression ++ le_encode 2 format_flags ++ le_encode 4 blocks_per_frame ++
   le_encode 4 final_frame_blocks ++ le_encode 4 total_frames ++ le_encode 2 bits ++ le_encode 2 channels ++
   le_encode 4 rate.
@@ -162,7 +162,7 @@ Definition spec_optimfrog_bits : list (Z * Z) :=
    u8 sample type, u8 channels - 1, u32 rate, [u16 encoder id, u8 compression]; zero filled to 76 bytes *)
 Definition build_ofr (data_size total sample_type channels rate encoder_id : Z) : list Z :=
   ascii_OFR_ ++ le_encode 4 data_size ++ le_encode 6 total ++ [sample_type] ++ [channels - 1] ++
-  le_encode 4 rate ++ le_encode 2 encoder_id ++ zeros 54.
+  le_encode 4 rate ++ le_encode 2 encoder_id ++ repeat 0 54%nat.
 
 (* CODE: OptimFROGInfo.__init__; result: [channels; sample_rate; bits_per_sample or -1 (None);
    length numerator; length denominator; encoder number (encoder_id >> 4) + 4500 or -1 (empty string)] *)
